@@ -34,6 +34,9 @@ BoundsWhy(e) ==
           ELSE IF e.within_out # 1 \/ e.within_out_assign # 1 THEN "clamped-not-within"
           ELSE IF e.clamp2 # e.clamp THEN "not-idempotent"
           ELSE IF Within(e.node, c, e.lo, hi) /\ e.clamp # e["in"] THEN "inbounds-changed"
+          \* self-consistency inside a documented slack band, where the model accepts either flag: a colour that REPORTS
+          \* itself within bounds is "an in-bounds colour" and clamping must leave it unchanged
+          ELSE IF e.within_in = 1 /\ e.clamp # e["in"] THEN "reports-within-but-clamp-changes"
           ELSE "ok"
 
 (* the same three conversions between the Alpha-wrapped forms of the two types (`a` is the transparency of the input): *)
@@ -59,6 +62,8 @@ Conv3Why(e) ==
           ELSE IF ~ClampOk(e.to, e.t, u, e.lo, hi, sb, c) THEN "from_color-not-clamp-of-unclamped"
           ELSE IF ~WithinFlagOk(e.to, e.t, u, e.lo, hi, sb, e.t_ok) THEN "try_from_color-verdict-wrong"
           ELSE IF e.tv # e.u THEN "try_from_color-value-differs"
+          \* the same self-consistency: the checked conversion succeeded, so the unclamped result is in bounds and clamping keeps it
+          ELSE IF e.t_ok = 1 /\ e.c # e.u THEN "checked-ok-but-clamping-conversion-differs"
           \* whole containers (Vec, Box<[_]>) converted by the clamping conversion: element for element the same value
           ELSE IF "cvec" \in DOMAIN e /\ (e.cvec # e.c \/ e.cbox # e.c) THEN "container-from_color-differs"
           \* the Into* mirror images and the in-place guards (into_color_mut on a value and on a slice, unclamped on a value)
